@@ -666,18 +666,18 @@ Proof.
     destruct (r_pc (rl s p)) eqn:Epc;
       try (assert (Ap : alive s p) by (split; [exact Er | unfold pcr; rewrite Epc; reflexivity]));
       try (assert (Nh : pcr s p <> HandlePrimary) by (unfold pcr; rewrite Epc; discriminate)).
-    + exists w. split; [eapply (invB_replicaLoop cfg w s p ch s'); eauto|]. eapply PO_replica_step; eauto.
-    + exists w. split; [eapply (invB_syncPrimary cfg w s p ch s'); eauto|]. eapply PO_replica_step; eauto.
-    + exists w. split; [eapply (invB_sndSyncReqLoop cfg w s p ch s'); eauto|]. eapply PO_replica_step; eauto.
-    + exists w. split; [eapply (invB_rcvSyncRespLoop cfg w s p ch s'); eauto|]. eapply PO_replica_step; eauto.
-    + exists w. split; [eapply (invB_rcvMsg cfg w s p ch s'); eauto|]. eapply PO_replica_step; eauto.
-    + exists w. split; [eapply (invB_handleBackup cfg w s p ch s'); eauto|]. eapply PO_replica_step; eauto.
+    + exists w. split; [eapply (invB_replicaLoop cfg w s p ch s'); eauto|]. apply (PO_replica_step w w s p ch s' IA IB IA' HPO Er Hstep); intros _; reflexivity.
+    + exists w. split; [eapply (invB_syncPrimary cfg w s p ch s'); eauto|]. apply (PO_replica_step w w s p ch s' IA IB IA' HPO Er Hstep); intros _; reflexivity.
+    + exists w. split; [eapply (invB_sndSyncReqLoop cfg w s p ch s'); eauto|]. apply (PO_replica_step w w s p ch s' IA IB IA' HPO Er Hstep); intros _; reflexivity.
+    + exists w. split; [eapply (invB_rcvSyncRespLoop cfg w s p ch s'); eauto|]. apply (PO_replica_step w w s p ch s' IA IB IA' HPO Er Hstep); intros _; reflexivity.
+    + exists w. split; [eapply (invB_rcvMsg cfg w s p ch s'); eauto|]. apply (PO_replica_step w w s p ch s' IA IB IA' HPO Er Hstep); intros _; reflexivity.
+    + exists w. split; [eapply (invB_handleBackup cfg w s p ch s'); eauto|]. apply (PO_replica_step w w s p ch s' IA IB IA' HPO Er Hstep); intros _; reflexivity.
     + destruct (invB_handlePrimary cfg w s p ch s' IA IB Ap) as (w' & IB'); [unfold pcr; exact Epc | exact Hs|].
-      exists w'. split; [exact IB'|]. eapply (PO_replica_step w w'); eauto. intros N. unfold pcr in N. contradiction.
-    + exists w. split; [eapply (invB_sndReplicaReqLoop cfg w s p ch s'); eauto|]. eapply PO_replica_step; eauto.
-    + exists w. split; [eapply (invB_rcvReplicaRespLoop cfg w s p ch s'); eauto|]. eapply PO_replica_step; eauto.
-    + exists w. split; [eapply (invB_sndResp cfg w s p ch s'); eauto|]. eapply PO_replica_step; eauto.
-    + exists w. split; [eapply (invB_failLabel cfg w s p ch s'); eauto|]. eapply PO_replica_step; eauto.
+      exists w'. split; [exact IB'|]. apply (PO_replica_step w w' s p ch s' IA IB IA' HPO Er Hstep). intros N. unfold pcr in N. contradiction.
+    + exists w. split; [eapply (invB_sndReplicaReqLoop cfg w s p ch s'); eauto|]. apply (PO_replica_step w w s p ch s' IA IB IA' HPO Er Hstep); intros _; reflexivity.
+    + exists w. split; [eapply (invB_rcvReplicaRespLoop cfg w s p ch s'); eauto|]. apply (PO_replica_step w w s p ch s' IA IB IA' HPO Er Hstep); intros _; reflexivity.
+    + exists w. split; [eapply (invB_sndResp cfg w s p ch s'); eauto|]. apply (PO_replica_step w w s p ch s' IA IB IA' HPO Er Hstep); intros _; reflexivity.
+    + exists w. split; [eapply (invB_failLabel cfg w s p ch s'); eauto|]. apply (PO_replica_step w w s p ch s' IA IB IA' HPO Er Hstep); intros _; reflexivity.
     + discriminate.
   - destruct (is_client cfg p) eqn:Ec; [|discriminate]. exists w. split.
     + apply (invB_client_step cfg w s p ch s' IA IB); [apply is_client_true in Ec; lia | exact Hstep].
@@ -698,3 +698,62 @@ Proof.
 Qed.
 
 End POSEC.
+
+(* ------------------------------------------------------------------ 5. assembled: every label except the three "receive an answer" labels *)
+Definition at_answer_label (cfg : config) (s : state) (p : node) : Prop :=
+  (is_replica cfg p = true /\ (r_pc (rl s p) = RcvSyncRespLoop \/ r_pc (rl s p) = RcvReplicaRespLoop)) \/
+  (is_replica cfg p = false /\ c_pc (cl s p) = RcvResp).
+
+Lemma assertion_free_crash_lemma : forall cfg input evs s p ch,
+  Forall input_ok input -> exec cfg (init cfg input) evs = Some s -> ~ at_answer_label cfg s p ->
+  step cfg s (Ev p ch) <> AssertFail /\ step cfg s (Ev p ch) <> TypeErr.
+Proof.
+  intros cfg input evs s p ch Hin He Hna. apply okout_spec.
+  assert (Hr : reachable cfg input s) by (eapply exec_reachable; [apply reach_init | exact He]).
+  pose proof (invA_reachable cfg input s Hin Hr) as IA.
+  pose proof (W_reachable cfg input s Hin Hr) as HW.
+  pose proof (INV_reachable cfg input s Hin Hr) as HI.
+  assert (Had : addressed (net s)) by (intros n c m Hm; eapply queued_messages_addressed_lemma; eauto).
+  unfold step. destruct (is_replica cfg p) eqn:Er.
+  - pose proof Er as Hp. apply (isrep_iff cfg) in Hp.
+    apply (no_fail_replica cfg s p ch IA HW Had Hp).
+    + intros E. apply Hna. left. unfold pcr in E. auto.
+    + intros E. apply Hna. left. unfold pcr in E. auto.
+    + intros E. apply (INV_req_not_older cfg s p HI Hp E).
+  - destruct (is_client cfg p); [|exact I]. apply (no_fail_client cfg s p ch HW).
+    intros E. apply Hna. right. auto.
+Qed.
+
+Lemma put_bodies_wellformed_lemma : forall cfg input evs s,
+  Forall input_ok input -> exec cfg (init cfg input) evs = Some s -> W s.
+Proof.
+  intros cfg input evs s Hin He. apply (W_reachable cfg input s Hin). eapply exec_reachable; [apply reach_init | exact He].
+Qed.
+
+Lemma pending_put_not_older_lemma : forall cfg input evs s p m,
+  Forall input_ok input -> exec cfg (init cfg input) evs = Some s ->
+  is_replica cfg p = true -> r_pc (rl s p) = HandleBackup -> r_req (rl s p) = Some m -> m_typ m = PUT_REQ ->
+  Kv (r_lastPutBody (rl s p)) <= Kv (m_body m).
+Proof.
+  intros cfg input evs s p m Hin He Hp Epc Hreq Ht.
+  assert (Hr : reachable cfg input s) by (eapply exec_reachable; [apply reach_init | exact He]).
+  apply (INV_req_not_older cfg s p (INV_reachable cfg input s Hin Hr)); auto. apply (isrep_iff cfg). exact Hp.
+Qed.
+
+Lemma put_bodies_content_lemma : forall cfg input evs s,
+  Forall input_ok input -> exec cfg (init cfg input) evs = Some s ->
+  (forall r, exists ver c, r_lastPutBody (rl s r) = BPut ver c /\ (1 <= ver -> exists k v, c = Some (k, v))) /\
+  (forall n c m, In m (queue (net s n c)) -> m_src m <> CLIENT_SRC -> m_typ m = PUT_REQ ->
+     exists ver k v, m_body m = BPut ver (Some (k, v)) /\ 1 <= ver) /\
+  (forall n c m, In m (queue (net s n c)) -> m_src m <> CLIENT_SRC -> (m_typ m = SYNC_REQ \/ m_typ m = SYNC_RESP) ->
+     exists ver c, m_body m = BPut ver c /\ (1 <= ver -> exists k v, c = Some (k, v))).
+Proof.
+  intros cfg input evs s Hin He. destruct (put_bodies_wellformed_lemma cfg input evs s Hin He) as (Hq & Hr & _).
+  assert (F : forall ver (c : option (key * value)), (1 <= ver -> c <> None) -> 1 <= ver -> exists k v, c = Some (k, v)).
+  { intros ver [[k v]|] H1 H2; [eauto | exfalso; apply (H1 H2); reflexivity]. }
+  split; [|split].
+  - intros r. destruct (Hr r) as ((ver & c & E & Hc) & _). exists ver, c. split; [exact E | apply F; exact Hc].
+  - intros n c m Hm Hs Ht. destruct (Hq n c m Hm Hs (or_introl Ht)) as [(ver & c0 & E & Hc) Hk].
+    specialize (Hk Ht). rewrite E in Hk. cbn in Hk. destruct (F ver c0 Hc Hk) as (k & v & ->). exists ver, k, v. auto.
+  - intros n c m Hm Hs Ht. destruct (Hq n c m Hm Hs) as [(ver & c0 & E & Hc) _]; [tauto|]. exists ver, c0. split; [exact E | apply F; exact Hc].
+Qed.
